@@ -114,6 +114,7 @@ CtGrandpaCons == ScEnum("GrandpaConsensusLog", << [i |-> 1, t |-> ScTuple(<<ScSl
 
 GossipNames == {"gvote", "gcommit", "gneighbour", "gcatchupreq", "gcatchupresp"}
 PbNames == {"blockrequest", "blockresponse"}
+CountNames == {"bodycount"}
 
 CtType(name) == CASE name = "header" -> CtHeader
                   [] name \in GossipNames -> CtGrandpaMsg
@@ -268,8 +269,23 @@ BD2 == [hash |-> HA, header |-> <<>>, body |-> <<>>, receipt |-> <<7>>, mq |-> <
 BD3 == [hash |-> HC, header |-> <<HeaderVals[1]>>, body |-> << <<>> >>, receipt |-> <<>>, mq |-> <<>>, just |-> <<>>]
 BD4 == [hash |-> HB, header |-> <<HeaderVals[18]>>, body |-> <<>>, receipt |-> <<>>, mq |-> <<>>, just |-> <<>>]
 BlockResponseVals == << <<>>, <<BD1>>, <<BD2, BD3>>, <<BD4, BD1, BD2>> >>
+
+(* ---- bodies whose extrinsic COUNT sits on the compact-mode boundaries ------------------------------------*)
+(* value [n |-> count, fill |-> byte]: n extrinsics of the one byte fill.  TLC does not hold the long byte  *)
+(* strings: the expected bytes are a descriptor [head, unit, n, tail] = head \o unit repeated n times \o tail *)
+(*   scale: the SCALE body Vec<Vec<u8>>  = Compact(n) then n times (Compact(1), fill)                       *)
+(*   pb:    the block response carrying one block (hash HB, no header) with that body:                      *)
+(*          key(1,2) varint(34 + 4n) [ key(1,2) 32 HB ] then n times [ key(3,2) 2 Compact(1) fill ]         *)
+BodyCountVals == << [n |-> 0, fill |-> 7], [n |-> 1, fill |-> 7], [n |-> 63, fill |-> 9], [n |-> 64, fill |-> 9], [n |-> 65, fill |-> 9],
+                    [n |-> 16383, fill |-> 5], [n |-> 16384, fill |-> 5], [n |-> 16385, fill |-> 5] >>
+CtBodyDesc(v) == [head |-> ScCompactInt(v.n), unit |-> <<4, v.fill>>, n |-> v.n, tail |-> <<>>]
+CtBodyPbDesc(v) == [head |-> IF v.n = 0 THEN PbLenField(1, PbLenField(1, HB))
+                             ELSE PbKey(1, 2) \o PbVarint(BnFromInt(34 + 4 * v.n)) \o PbLenField(1, HB),
+                    unit |-> PbLenField(3, <<4, v.fill>>), n |-> v.n, tail |-> <<>>]
+CtExpand(d) == d.head \o [i \in 1..(d.n * Len(d.unit)) |-> d.unit[((i - 1) % Len(d.unit)) + 1]] \o d.tail
 CtVals(name) ==
   CASE name = "header" -> HeaderVals
+    [] name = "bodycount" -> BodyCountVals
     [] name \in GossipNames -> GossipVals(name)
     [] name = "gcommitj" -> << <<HA, N0, <<>>>>, <<HB, N1, <<SVoteB>>>>, <<HC, N2, <<SVoteA, SVoteC>>>> >>
     [] name = "gjust" -> << <<R0, <<HA, N0, <<>>>>>>, <<R1, <<HB, N1, <<SVoteB>>>>>>, <<R2, <<HC, N2, <<SVoteA, SVoteC>>>>>> >>
@@ -332,6 +348,7 @@ CtPbMutations(name, v) ==
 
 CtEncCase(name, i) == [op |-> "enc", ty |-> name, v |-> CtVals(name)[i]]
 CtDecCases(name, i) ==
+  IF name \in CountNames THEN {[op |-> "dec", ty |-> name, v |-> CtVals(name)[i], mut |-> "valid"]} ELSE
   {[op |-> "dec", ty |-> name, b |-> m.b, mut |-> m.mut] :
      m \in IF name \in GossipNames THEN CtWireMutations(CtType(name), CtVals(name)[i])
            ELSE IF name \in PbNames THEN CtPbMutations(name, CtVals(name)[i])
@@ -345,7 +362,9 @@ CtAsItem(name, v) == IF name = "babecons" THEN ScEnc(CtDigestItem, [i |-> 4, v |
 CtAlt(o) == IF o.ty = "warpproof" /\ \E i \in 1..Len(WarpProofVals(4)) : WarpProofVals(4)[i] = o.v
             THEN ScEnc(CtWarpProof(8), WarpProofVals(8)[CHOOSE i \in 1..Len(WarpProofVals(4)) : WarpProofVals(4)[i] = o.v])
             ELSE <<>>
-CtResult(o) == IF o.op = "enc"
+CtResult(o) == IF o.ty \in CountNames
+               THEN [ok |-> TRUE, scale |-> CtBodyDesc(o.v), pb |-> CtBodyPbDesc(o.v), enc |-> <<>>, hash |-> <<>>, item |-> <<>>, alt |-> <<>>]
+               ELSE IF o.op = "enc"
                THEN [enc |-> IF o.ty \in PbNames THEN CtPbEnc(o.ty, o.v) ELSE ScEnc(CtType(o.ty), o.v),
                      hash |-> IF o.ty = "header" THEN CtHeaderHash(o.v) ELSE <<>>, item |-> CtAsItem(o.ty, o.v), alt |-> CtAlt(o)]
                ELSE IF o.ty \in PbNames THEN CtPbDec(o.ty, o.b) ELSE ScDec(CtType(o.ty), o.b)
@@ -390,7 +409,21 @@ CtPbEncLaw(name, v) ==
      /\ \A k \in 0..(Len(e) - 1) : LET q == CtPbDec(name, SubSeq(e, 1, k)) IN q.ok => q.enc = SubSeq(e, 1, k)
 (* an accepted input decodes to a value whose canonical encoding decodes to the same value *)
 CtPbDecLaw(name, b) == LET r == CtPbDec(name, b) IN r.ok => (LET q == CtPbDec(name, r.enc) IN q.ok /\ q.v = r.v /\ q.enc = r.enc)
+(* the descriptors: the head carries the canonical Compact(count) / varint(length), whose width changes exactly at *)
+(* 2^6 and 2^14; for counts TLC can expand, the expansion IS the layout of CtBody / CtBlockResponseEnc             *)
+CtBodyCountLaw(v) ==
+  LET d == CtBodyDesc(v)
+      q == CtBodyPbDesc(v)
+      r == ScCompactDec(d.head, 4, "len")
+      body == [i \in 1..v.n |-> <<v.fill>>]
+  IN /\ r.ok /\ r.n = Len(d.head) /\ BnToInt(r.v) = v.n
+     /\ Len(d.head) = (IF v.n < 64 THEN 1 ELSE IF v.n < 16384 THEN 2 ELSE 4)
+     /\ \A w \in ScCompactWidened(BnFromInt(v.n)) : ~ScCompactDec(w, 4, "len").ok
+     /\ v.n <= 65 => /\ CtExpand(d) = ScEnc(CtBody, body)
+                     /\ CtExpand(q) = CtBlockResponseEnc(<<[hash |-> HB, header |-> <<>>, body |-> body, receipt |-> <<>>, mq |-> <<>>, just |-> <<>>]>>)
+                     /\ CtBlockResponseDec(CtExpand(q)).ok /\ CtBlockResponseDec(CtExpand(q)).v[1].body = body
 CtCaseLaw(o) ==
+  IF o.ty \in CountNames THEN CtBodyCountLaw(o.v) ELSE
   IF o.ty \in PbNames THEN (IF o.op = "enc" THEN CtPbEncLaw(o.ty, o.v) ELSE CtPbDecLaw(o.ty, o.b))
   ELSE LET t == CtType(o.ty) IN
        IF o.op = "enc" THEN RoundTrip(t, o.v) /\ PrefixFree(t, o.v) /\ SuffixIndependent(t, o.v)
